@@ -16,6 +16,12 @@ func init() {
 		Rule{Name: "C07-R6-receive-after-tcpup", Doc: "in every transport bring-up path the goroutine that reads and dispatches inbound frames is launched only after rt.TCPUp returned: a Select.req (and data pipelined behind it) can never be dispatched while the state is still NotConnected, where the synchronous Selected commit would fail and the data be rejected", Run: c07ReceiveAfterTCPUp})
 	registry["C10"].Rules = append(registry["C10"].Rules,
 		Rule{Name: "C10-R7-late-socket-closed", Doc: "transport.Stop re-reads the connection field after it joined the accept goroutine (the only asynchronous writer of that field) and closes what it finds: a peer adopted while Stop was closing the listener is not left open", Run: c10LateSocket})
+	registry["C10"].Rules = append(registry["C10"].Rules,
+		Rule{Name: "C10-R8-close-tears-down-published-epoch", Doc: "Close re-pins the current epoch inside the publishMu fence (after shutdown is set, so no later epoch can be published) and tears that one down, then joins supervisor and reconnect loop in order — an epoch published between Close's entry and its fence is not leaked (shared with C05-R5)", Run: func(r *Run) {
+			r.ruleAlias = "C10-R8-close-tears-down-published-epoch"
+			defer func() { r.ruleAlias = "" }()
+			c05CloseOrder(r)
+		}})
 	registry["C19"].Rules = append(registry["C19"].Rules,
 		Rule{Name: "C19-R4-activity-stamps", Doc: "the receive stamp is stored for every frame read without error, whatever its type, before it is dispatched; the send stamp is stored exactly when the socket write succeeded; no other writer exists besides the per-connection reset", Run: c19ActivityStamps})
 	registry["C11"].Rules = append(registry["C11"].Rules,
